@@ -218,23 +218,65 @@ def r_index(F, res):
 
 
 def s_sorted(F, res):
-    for name in ("compile_single_spend_redeemer", "mint_redeemer_index", "withdrawal_redeemer_index"):
-        f = _soft(F, res, "S-SORTED", name)
-        if f is None:
+    """Every `position()` search in the closure of compile_redeemers (where the redeemer indices come from) runs over a list
+    that is sorted in the ledger's order.  Found by role; a search that sits in a helper taking the list as a parameter
+    (`fn sorted_position(list, x)`) is judged in each caller, with the helper inlined."""
+    from ..common import callers_index
+    root = C + "compile_redeemers"
+    if root not in F.fns:
+        raise BrokenCheck("compile_redeemers not found")
+    reach = CallGraph(F, callbacks=False).reachable([root])
+    n = 0
+
+    def is_pos(t):
+        return (t.get("callee") or "").endswith("Iterator::position") or (t.get("resolved") or "").endswith("::position")
+    for p in sorted(reach):
+        f = F.fns.get(p)
+        if f is None or f["crate"] != "tx3_cardano" or f.get("derived") or f["def_kind"] == "Closure":
+            continue
+        # only searches that produce a redeemer index: the function returns the u32 index, or builds the Redeemer itself
+        builds = any(s_["rv"]["k"] == "agg" and s_["rv"].get("adt", "").endswith("::Redeemer") for _, _, s_ in mir.stmts(f))
+        if not (builds or re.search(r"\bu32\b", f["locals"][0]) or re.search(r"\busize\b", f["locals"][0])):
             continue
         du = mir.DefUse(f)
         cfg = mir.CFG(f)
-        pos = [(bi, t) for bi, t in mir.calls(f) if (t.get("callee") or "").endswith("Iterator::position") or (t.get("resolved") or "").endswith("::position")]
-        key = "%s|searched list is sorted" % f["path"]
-        if not pos:
-            res.add([finding("S-SORTED", key, where(f), "no position() search found: the redeemer index is not computed from the body's item order")])
-            continue
-        for bi, t in pos:
+        for bi, t in mir.calls(f):
+            if not is_pos(t):
+                continue
+            n += 1
+            key = "%s|searched list is sorted" % f["path"]
+            src = mir.provenance(f, du, t["args"][0], transparent_extra=("core::slice::<impl [T]>::iter", "std::iter::IntoIterator::into_iter", "std::ops::Deref::deref"))
+            if src and all(o.kind == "arg" for o in src) and callers_index(F).get(p):
+                # judged in the callers
+                for caller, ct in callers_index(F)[p]:
+                    if caller["path"] not in reach:
+                        continue
+
+                    def want(t_, callee, p=p):
+                        return callee["path"] == p
+                    _KEEP.append(want)
+                    hi = mir.inline_calls(F, caller, want=want, depth=1)
+                    dh, ch = mir.DefUse(hi), mir.CFG(hi)
+                    for bj, t2 in mir.calls(hi):
+                        if is_pos(t2) and hi["blocks"][bj].get("inl") == p:
+                            okk, why = sortedness(F, hi, dh, ch, bj, t2["args"][0])
+                            k2 = "%s|searched list is sorted" % caller["path"]
+                            if okk:
+                                res.add([ok("S-SORTED", k2, where(caller, ct["line"]), why + " (search in helper %s)" % p.split("::")[-1])])
+                            else:
+                                res.add([finding("S-SORTED", k2, where(caller, ct["line"]), "the list searched for the redeemer index is not sorted (%s): the index does not follow the ledger's canonical order" % why)])
+                continue
             okk, why = sortedness(F, f, du, cfg, bi, t["args"][0])
             if okk:
                 res.add([ok("S-SORTED", key, where(f, t["line"]), why)])
             else:
                 res.add([finding("S-SORTED", key, where(f, t["line"]), "the list searched for the redeemer index is not sorted (%s): the index does not follow the ledger's canonical order" % why)])
+    if n == 0:
+        res.add([finding("S-SORTED", root + "|index searches", where(F.fns[root]), "no position() search in the closure of compile_redeemers: the redeemer indices are not computed from the body's item order")])
+    res.count("position() searches in the redeemer closure", n)
+
+
+_KEEP = []
 
 
 def s_all(F, res):
